@@ -114,6 +114,10 @@ VALUES = {
 }
 
 
+# second element of a task split over two values (distinct from the first: two different job identities)
+SPLIT_SECOND = {"list": lambda: [4, 5, 6], "dict": lambda: {"a": 2, "b": [3, 4]}}
+
+
 def _reshape(a, shape):
     a.resize(shape, refcheck=False)  # in-place shape change (same bytes, same size)
 
@@ -319,7 +323,21 @@ def _cases(ctx):
     for op in ("read-only", "add-file", "edit-member"):
         out.append({"group": "file", "task": "MutDir", "kind": "directory", "op": op, "wrap": "direct"})
     out.append({"group": "file", "task": "ShAppendCopy", "kind": "file-copy-mode", "op": "append", "wrap": "direct"})
+    # a task split over two values: every element job is hashed before it is handed to the worker
+    for kind in SPLIT_SECOND:
+        for op, (kinds, _f, m) in OPS.items():
+            if m and (kinds == "*" or kind in kinds):
+                out.append({"group": "value", "task": "MutAny", "kind": kind, "op": op, "wrap": "split"})
+                break
     cases = [dict(c, worker="debug") for c in out]
+    # pool worker in every tier: the job is pickled into another process AFTER its checksum was computed
+    # (workflow node, element of a split task) or before (stand-alone task)
+    quick_cf = set()
+    for c in out:
+        k = (c["kind"], c["wrap"])
+        if _mutating(c) and c["task"] == "MutAny" and k in {("list", "workflow"), ("dict", "workflow"), ("list", "split"), ("dict", "split"), ("list", "direct")} and k not in quick_cf:
+            quick_cf.add(k)
+            cases.append(dict(c, worker="cf"))
     if ctx.thorough:
         # pool worker (cf, n_procs=1): the first mutating operation of every value kind, a few
         # workflow-wrapped ones and the file cases (each cf run starts a process pool: slow)
@@ -328,6 +346,8 @@ def _cases(ctx):
             if not _mutating(c):
                 continue
             k = (c["task"], c["kind"], c["wrap"])
+            if (c["kind"], c["wrap"]) in quick_cf:
+                continue
             if c["wrap"] == "workflow" and c["kind"] not in ("list", "ndarray", "deque", "file"):
                 continue
             if c["task"] in TYPED_NAMES:
@@ -345,8 +365,28 @@ def _mutating(case):
     return case["op"] != "read-only"
 
 
+def _submit(task, cache, worker):
+    """debug worker: Task.__call__ (errors are raised).  Pool worker: by default Submitter.__call__ only LOGS an error
+    raised after the result was stored ('Task execution failed', logging level ERROR) and returns the stored result; to
+    observe WHAT was reported the submission is made with raise_errors=True, which hands the same error to the caller"""
+    if worker == "debug":
+        return task(cache_root=cache, worker=worker)
+    from pydra.engine.submitter import Submitter
+
+    with Submitter(cache_root=cache, worker=worker, n_procs=1) as sub:
+        res = sub(task, raise_errors=True)
+    if res.errored:
+        raise RuntimeError("\n".join(res.errors["error message"]) if res.errors else "errored result without error record")
+    return res.outputs
+
+
 def observe(case):
     """run one case natively; returns the observation dict"""
+    from pydra.engine.workflow import Workflow
+
+    # one case = one run from a clean process state (what an earlier run in the same process leaves in the
+    # in-memory cache of constructed workflows is the subject of the two-submission domain below)
+    Workflow.clear_cache()
     tmp = Path(tempfile.mkdtemp(prefix="vf_c19_"))
     cwd0 = os.getcwd()
     cache = tmp / "cache"
@@ -356,8 +396,13 @@ def observe(case):
         files = []  # original files whose bytes must / may change
         if case["group"] == "value":
             value = VALUES[kind](tmp)
+            elems = None
             if case["wrap"] == "workflow":
                 task = WrapAny(v=value, op=op)
+            elif case["wrap"] == "split":
+                value = [value, SPLIT_SECOND[kind]()]
+                elems = [globals()[tname](v=v, op=op)._checksum for v in value]
+                task = globals()[tname](op=op).split(v=value)
             else:
                 task = globals()[tname](v=value, op=op)
             field = "v"
@@ -390,9 +435,8 @@ def observe(case):
         checksum0 = task._checksum
         exc = None
         outputs = None
-        kw = {"n_procs": 1} if case["worker"] == "cf" else {}
         try:
-            outputs = task(cache_root=cache, worker=case["worker"], **kw)
+            outputs = _submit(task, cache, case["worker"])
         except BaseException as e:  # noqa
             exc = e
         msg = "" if exc is None else str(exc)
@@ -406,6 +450,11 @@ def observe(case):
         dirs = sorted(p.name for p in cache.iterdir() if p.is_dir() and "-" in p.name and not p.name.startswith("pkl")) if cache.exists() else []
         obs["job_dirs"] = dirs
         obs["result_in_original_dir"] = (cache / checksum0 / "_result.pklz").exists()
+        if case.get("wrap") == "split":
+            # the jobs are the elements: their identities are those of the element tasks with the ORIGINAL values
+            obs["element_checksums"] = elems
+            # (with the sequential worker the first reported change ends the run: later elements may not have run)
+            obs["result_in_original_dir"] = any((cache / c).exists() for c in elems) and all((cache / c / "_result.pklz").exists() for c in elems if (cache / c).exists())
         if tname == "ShAppendCopy" and outputs is not None:
             obs["stdout_has_mutation"] = "MUTATED" in (outputs.stdout or "")
         return obs
@@ -422,6 +471,10 @@ def problems(o):
         # the run failed for another reason: nothing can be said (reported as checker problem by run())
         return [("__other_error__", o["other_error"])]
     silent = not o["hash_change_error"] and not (o["user_value_unchanged"] and o["task_value_unchanged"] and all(o["files_unchanged"]))
+    if o.get("worker") == "cf" and o["group"] == "value" and _mutating(o) and not o["hash_change_error"]:
+        # pool worker: the modification happens to the copy of the value in the worker process and cannot be seen from
+        # here; the same operation is observable under the in-process worker (asserted in run()), so it took place
+        silent = True
     if silent:
         bad.append((classify_silent(o), f"in-place {op} of a {kind} input went unreported: no RuntimeError and the input differs from its pre-run snapshot"))
     if kind == "file-copy-mode" and not all(o["files_unchanged"]):
@@ -432,7 +485,10 @@ def problems(o):
     # (c) cache identity: for workflow wrappers the outer job is the workflow; node dirs are extra
     expected = o["checksum_before"]
     outer = [d for d in o["job_dirs"] if d.split("-")[0] == expected.split("-")[0]]
-    if o["job_dirs"] and (expected not in o["job_dirs"] or (o["wrap"] == "direct" and outer != [expected])):
+    if o["wrap"] == "split":
+        if o["job_dirs"] and not set(d for d in o["job_dirs"] if not d.startswith("workflow-")) <= set(o["element_checksums"]):
+            bad.append(("result-dir-not-original-checksum", f"job directories {o['job_dirs']} but the element tasks with the original values have checksums {o['element_checksums']}"))
+    elif o["job_dirs"] and (expected not in o["job_dirs"] or (o["wrap"] == "direct" and outer != [expected])):
         bad.append(("result-dir-not-original-checksum", f"job directories {o['job_dirs']} but the original checksum is {expected}"))
     if o["job_dirs"] and not o["result_in_original_dir"]:
         bad.append(("no-result-under-original-checksum", f"no _result.pklz in {expected}"))
@@ -498,8 +554,23 @@ def _run_bounded(ctx):
     import concurrent.futures as cf
     import multiprocessing as mp
 
+    hist = [(w, k, a, b) for w in HIST_WRAPS for k in SPLIT_SECOND for a, b in HIST_WORKERS]
     with cf.ProcessPoolExecutor(max_workers=ctx.pick(4, 8), mp_context=mp.get_context("spawn"), initializer=_pool_init) as ex:
+        fut_h = [ex.submit(_observe_history_safe, a) for a in hist]
         observations = list(ex.map(_observe_safe, cases, chunksize=2))
+        hist_obs = [f.result() for f in fut_h]
+    dom_h = ctx.domain(
+        "two submissions in one process: mutating in-process run, then an equal task from fresh values",
+        bound=f"wrappers {HIST_WRAPS} x value kinds {list(SPLIT_SECOND)} x (first worker, second worker) in {HIST_WORKERS}; the task applies the first mutating operation of the kind",
+        rule="one case per (wrapper, kind, workers): both runs must report the modification and leave job directories only under the identities of the values they were given",
+        exhaustive=True,
+    )
+    for a, o in zip(hist, hist_obs):
+        if "harness_crash" in o:
+            raise CheckerError(f"history {a}: harness crashed: {o['harness_crash']}")
+        dom_h.case(a, sample=o)
+        for klass, text in history_problems(o):
+            ctx.fail(klass, f"C19 history wrap={a[0]} kind={a[1]} workers={a[2]}->{a[3]}: {text}", o, domain=dom_h)
     for case, o in zip(cases, observations):
         key = (case["task"], case["kind"], case["op"], case["wrap"], case["worker"])
         if "harness_crash" in o:
@@ -518,6 +589,67 @@ def _run_bounded(ctx):
         if case["worker"] == "debug" and _mutating(case) and case["kind"] != "file-copy-mode" and not o["hash_change_error"]:
             if o["user_value_unchanged"] and o["task_value_unchanged"] and all(o["files_unchanged"]):
                 raise CheckerError(f"case {key}: the mutating operation had no observable effect (harness error)")
+
+
+# --------------------------------------------------------------------------- two submissions in one process
+
+HIST_WRAPS = ("split", "workflow")
+HIST_WORKERS = (("debug", "debug"), ("debug", "cf"))
+
+
+def observe_history(wrap, kind, first_worker, second_worker):
+    """an in-process (debug) run whose task modifies its input in place -- reported -- followed, in the SAME process,
+    by a submission of an equal task built from FRESH values: the second run must work on the values it was given"""
+    op = next(o for o, (kinds, _f, m) in OPS.items() if m and (kinds == "*" or kind in kinds))
+    tmp = Path(tempfile.mkdtemp(prefix="vf_c19h_"))
+    cwd0 = os.getcwd()
+    from pydra.engine.workflow import Workflow
+
+    Workflow.clear_cache()
+    try:
+        def make():
+            v0 = VALUES[kind](tmp)
+            if wrap == "split":
+                vals = [v0, SPLIT_SECOND[kind]()]
+                return MutAny(op=op).split(v=vals), [MutAny(v=v, op=op)._checksum for v in vals], vals
+            return WrapAny(v=v0, op=op), [MutAny(v=v0, op=op)._checksum], v0
+
+        obs = {"history": True, "wrap": wrap, "kind": kind, "op": op, "workers": [first_worker, second_worker], "runs": []}
+        for i, w in enumerate((first_worker, second_worker)):
+            task, expected, given = make()
+            before = snap(given)
+            cache = tmp / f"cache{i}"
+            exc = None
+            try:
+                _submit(task, cache, w)
+            except BaseException as e:  # noqa
+                exc = e
+            dirs = sorted(p.name for p in cache.iterdir() if p.is_dir() and p.name.startswith("python-")) if cache.exists() else []
+            obs["runs"].append({"worker": w, "raised": None if exc is None else type(exc).__name__, "reported": bool(exc is not None and "hashes have changed" in str(exc)), "expected_dirs": expected, "job_dirs": dirs, "given_values_unchanged": snap(given) == before})
+        return obs
+    finally:
+        os.chdir(cwd0)
+        shutil.rmtree(tmp, ignore_errors=True)
+
+
+def history_problems(o):
+    bad = []
+    for i, r in enumerate(o["runs"]):
+        which = "first" if i == 0 else "second"
+        if not set(r["job_dirs"]) <= set(r["expected_dirs"]):
+            bad.append((None, f"{which} run ({r['worker']}): job directories {r['job_dirs']} are not those of the values the task was given ({r['expected_dirs']})"))
+        if not r["reported"]:
+            bad.append((None, f"{which} run ({r['worker']}): the in-place {o['op']} of the {o['kind']} input was not reported (raised: {r['raised']})"))
+    return bad
+
+
+def _observe_history_safe(a):
+    import traceback
+
+    try:
+        return observe_history(*a)
+    except Exception as e:  # noqa
+        return {"harness_crash": f"{type(e).__name__}: {e}\n{traceback.format_exc()[-800:]}"}
 
 
 def _pool_init():
@@ -543,6 +675,14 @@ def _observe_safe(case):
 
 def replay(rec):
     case = rec["case"]
+    if case.get("history"):
+        o = observe_history(case["wrap"], case["kind"], *case["workers"])
+        bad = history_problems(o)
+        print(f"replay C19 history: {o}\n  problems: {bad}")
+        if bad:
+            print(f"VIOLATION property=C19 replay={rec.get('_path', '')}")
+            return 1
+        return 0
     c = {k: case[k] for k in ("group", "task", "kind", "op", "wrap", "worker")}
     o = observe(c)
     probs = [p for p in problems(o) if p[0] != "__other_error__"]
